@@ -15,9 +15,10 @@
   `P` is the specification oracle of Spec/C06 evaluated on the Go result,
   `pat`/`fits` the recogniser and the 64-bit condition on the input text, and
   `dom` says whether the request lies in the model's exact domain (always 1
-  for amounts; for percentages: the float detour is exact and no int64
-  overflows).  The model part is `undef` where an int64 intermediate would
-  overflow in Go (not modelled for the float operations).
+  for amounts and for reading percentages — the conversions only move the
+  decimal point; for writing a percentage: at most 20 decimals and the percent
+  figure `value·10^(2−exp)` is an int64, which `RescaleUp(2)` does not check).
+  The model part is `undef` where that product would overflow in Go.
 -/
 import GoblVerif.Model.Codec
 import GoblVerif.Spec.C06
@@ -42,29 +43,14 @@ def showRes (r : Except Err Amount) : String :=
 def tail (pat fits dom p : Bool) : String :=
   s!" pat {b01 pat} fits {b01 fits} dom {b01 dom} P {b01 p}"
 
-def small? (i : Int) : Bool := i.natAbs < 2 ^ 52
-
-/-- the percentage result of the model, `undef` when Go's int64 would overflow
-    on the way (`Rescale(exp+2)` multiplies by 100 without a check) -/
-def showPct (body : Text) (r : Except Err Pct) : String :=
+/-- the percentage result of the model -/
+def showPct (r : Except Err Pct) : String :=
   match r with
   | .error e => s!"err {e.name}"
-  | .ok p =>
-    match amountFromString body with
-    | .ok a => if inI64 (a.value * 100) && inI64 p.amount.value then s!"ok {p.amount.value} {p.amount.exp}" else "undef"
-    | .error _ => s!"ok {p.amount.value} {p.amount.exp}"
+  | .ok p => if inI64 p.amount.value then s!"ok {p.amount.value} {p.amount.exp}" else "undef"
 
-/-- body of a percentage text as the parser sees it -/
-def pctBody (s : Text) : Text := if s.getLast? == some '%' then s.dropLast else s
-
-/-- exact domain of PercentageFromString on `s` -/
-def pctReadDom (s : Text) : Bool :=
-  match amountFromString (pctBody s) with
-  | .ok a => small? (a.value * 100)
-  | .error _ => true
-
-/-- exact domain of Percentage.String -/
-def pctWriteDom (p : Pct) : Bool := small? (p.amount.value * 10000) && p.amount.exp ≤ 20
+/-- exact domain of Percentage.String: the percent figure fits an int64 -/
+def pctWriteDom (p : Pct) : Bool := p.amount.exp ≤ 20 && inI64 (p.amount.value * 10 ^ (2 - p.amount.exp))
 
 def parse3 (gok gv ge : String) : Option (Bool × Amount) :=
   match parseNat? gok, parseInt? gv, parseNat? ge with
@@ -87,26 +73,17 @@ def handle (toks : List String) : String :=
       | "ujs" => s!"m {showRes (amountUnmarshalJSON cur s)}" ++ tail (isAmountText s) (fits64 s) true (readOracle s acc ga)
       | "putx" =>
         let r := pctUnmarshalText ⟨cur⟩ s
-        let m := if s = nullText then showRes (.ok cur) else showPct (pctBody s) r
-        s!"m {m}" ++ tail (isPercentageText s) (fits64 s.dropLast) (pctReadDom s) (pctReadOracle s acc ⟨ga⟩)
+        s!"m {showPct r}" ++ tail (isPercentageText s) (fits64 s.dropLast) true (pctReadOracle s acc ⟨ga⟩)
       | "pujs" =>
-        -- the text PercentageFromString sees (none: null literal, syntax error or empty string)
-        let u : Option Text := match jsonText s with
-          | .ok (t, false) => if t.isEmpty then none else some t
-          | _ => none
         let r := pctUnmarshalJSON ⟨cur⟩ s
-        let m := match u, r with
-          | some t, _ => showPct (pctBody t) r
-          | none, .ok p => showRes (.ok p.amount)
-          | none, .error e => s!"err {e.name}"
-        s!"m {m}" ++ tail (isPercentageText s) (fits64 s.dropLast) ((u.map pctReadDom).getD true) (pctReadOracle s acc ⟨ga⟩)
+        s!"m {showPct r}" ++ tail (isPercentageText s) (fits64 s.dropLast) true (pctReadOracle s acc ⟨ga⟩)
       | _ => "bad-op"
     | _, _, _, _ => "bad-args"
   | ["pfs", t, gok, gv, ge] =>
     match unhexText t, parse3 gok gv ge with
     | some s, some (acc, ga) =>
-      s!"m {showPct (pctBody s) (percentageFromString s)}" ++
-        tail (isPercentageText s) (fits64 s.dropLast) (pctReadDom s) (pctReadOracle s acc ⟨ga⟩)
+      s!"m {showPct (percentageFromString s)}" ++
+        tail (isPercentageText s) (fits64 s.dropLast) true (pctReadOracle s acc ⟨ga⟩)
     | _, _ => "bad-args"
   | [op, v, e, gt] =>
     match parseInt? v, parseNat? e, unhexText gt with
@@ -121,8 +98,7 @@ def handle (toks : List String) : String :=
             tail (isAmountText g) (fits64 g) true (isAmountText g && decimalValue g == a.toRat)
       | "pstr" =>
           let p : Pct := ⟨a⟩
-          let am := p.toAmount
-          let m := if e > 20 || !inI64 (v * 100) || !inI64 am.value then "undef" else hexText (pctToString p)
+          let m := if !pctWriteDom p then "undef" else hexText (pctToString p)
           s!"m {m}" ++ tail (isPercentageText g) (fits64 g.dropLast) (pctWriteDom p) (pctWriteOracle p g)
       | _ => "bad-op"
     | _, _, _ => "bad-args"
